@@ -35,6 +35,13 @@ CLAIMED = {
  "C18": dict(level="other", technique="static analysis: inductive interval invariant (cursor in 0..=125) proved by the zone domain over all writers, per-path counters for event/bitset and sweep-flag pairing, FDL admission guards over rustc MIR",
    text="Decides: only addresses 0..=125 are ever probed (inductive invariant of the sweep cursor over every writer, probe destination = cursor, source = own address); Lost only for known addresses together with clearing the bit, Discovered/Found only for unknown addresses together with setting it (the DP scanner adds an address only with a Found event); one probe per address per sweep (done-flag pairing); replies admitted only from the probed address. Convergence over whole histories is not decided.",
    note="Trusted: " + TB + "; bitvec get/set semantics; numdom transfer functions.", ref="§4-C18"),
+
+ "C11": dict(level="other", technique="static analysis: interprocedural path-sensitive variant (typestate) analysis of poll() with a fully non-deterministic environment, must-guard dataflow at acceptance/supervision sites, table extraction over rustc MIR",
+   text="Decides every rule of the statement as a typestate or guard fact of the single station for all histories: the token is taken only from ActiveIdle/PassToken(alone)/AwaitDataResponse and never within a poll that starts in ListenToken; both acceptance sites require token kind, foreign sender, own destination, last telegram and predecessor-or-repeated-candidate; declined sender recorded, ActiveIdle entered without candidate; retry/removal only after slot expiry with the attempt table First->Second->Third->remove+First; one removal site, successor only; attempt carried unchanged; token addressed to successor; alone keeps token. The duration of the slot is checked as a dependency on slot_time(), not as a number.",
+   note="Trusted: " + TB + "; callback contracts of receive_telegram / receive_all_telegrams / transmit_telegram (structure checked by C16).", ref="§4-C11"),
+ "C14": dict(level="other", technique="static analysis: loop-progress cut-set check, per-path and per-iteration event counters in the path-sensitive dataflow, typestate edges of peripheral events, who-consumes-result check over rustc MIR",
+   text="Decides: the DP master's slot loop advances the cycle state on every path around the loop (turn always ends, also with zero peripherals); no assertion on the number of peripheral events; cycle_completed is stored true exactly when the slot iteration reported the end of the pass and the iteration's verdict is always consumed; exactly one events-slot store before every return and an event obtained on a path is the one stored; peripheral events are raised only on their life-cycle edges; is_live/is_running tables; one Offline per drop-out (retry pairing). Slot order under storage mutation mid-cycle is not decided.",
+   note="Trusted: " + TB + "; PeripheralSet::get_next_index returns a later slot or None.", ref="§4-C14"),
 }
 
 NA = {
